@@ -10,7 +10,8 @@
    for Paragraph / Heading leaves, which stays the premise of Parse_inline_phase_total_partial:
 
      Parse_leaf_clauses                    NUL-free, valid UTF-8, line_endings c < |bi_lo| (or c = []) for every leaf
-     Parse_inline_phase_total_partial      if no leaf starts with a blank line, the inline phase is total
+     Parse_inline_phase_total_partial      if no Paragraph / Heading leaf starts with a blank line, the inline phase is total
+                                           (a TableCell never does: Proofs/LeafPremCells.v)
      Parse_document_inline_phase_partial   and parse_document_model = the text post-pass of its (footnote-processed) result
 
    Parse_inline_phase_total_full_statement (no premise on the leaves) is NOT proved: it needs the cursor invariant of
@@ -19,7 +20,7 @@
    found the clause true on 35,681 leaves of the compiled parser. *)
 From Coq Require Import List NArith Arith Bool Strings.String.
 From V Require Import Base.Bytes Base.Res Model.Ast Model.Strings Model.Blocks Model.Inlines Model.Parse Proofs.InlinesTotal2
-  Proofs.LeafPremMain.
+  Proofs.LeafPremMain Proofs.LeafPremCells.
 From V Require Spec.EscapeSpec.
 Import ListNotations.
 Local Open Scope string_scope.
@@ -38,10 +39,10 @@ Print Assumptions Parse_leaf_clauses.
 
 Theorem Parse_inline_phase_total_partial : forall o u x r,
   parse_blocks (bopts_of o u) x = Ok r ->
-  (forall p i, In (p, i) (bleaves [] (br_root r)) ->
+  (forall p i, In (p, i) (bleaves [] (br_root r)) -> bi_val i <> TableCell ->
      rtrim_slice (bi_content i) = [] \/ first_line_not_blank (rtrim_slice (bi_content i)) = true) ->
   exists t, inline_phase o u (br_root r) (br_refmap r) (br_max_ref_size r) = Ok t.
-Proof. exact inline_phase_total_blocks. Qed.
+Proof. exact inline_phase_total_blocks2. Qed.
 Print Assumptions Parse_inline_phase_total_partial.
 
 Theorem Parse_document_inline_phase_partial : forall o u x r,
@@ -78,7 +79,7 @@ Proof.
                                    (bleaves [] (br_root r)) = true).
   { vm_compute. eexists. split; [reflexivity|]. vm_compute. split; reflexivity. }
   destruct K as (r & E & N & F). rewrite E. split; [exact N|].
-  eapply Parse_inline_phase_total_partial; [exact E|]. intros p i Hin.
+  eapply Parse_inline_phase_total_partial; [exact E|]. intros p i Hin _.
   rewrite forallb_forall in F. specialize (F (p, i) Hin). cbn [snd] in F.
   destruct (rtrim_slice (bi_content i)); [left; reflexivity | right; exact F].
 Qed.
